@@ -164,10 +164,17 @@ func runCtlScenario(w *ndWriter, seed int64, variant string, idx int) bool {
 		}
 		slow = time.Duration([]float64{0, 0.5, 2}[(gi/5)%3] * float64(period) / 4)
 	case "shutdown":
+		hangAt := -1
+		if rng.Intn(2) == 0 {
+			hangAt = rng.Intn(4) // this List call returns only when its context is cancelled
+		}
 		for i := 0; i < 40; i++ {
 			a := ListAct{}
 			if rng.Intn(4) == 0 {
 				a.Delay = time.Duration(rng.Intn(80)) * time.Millisecond
+			}
+			if i == hangAt {
+				a.Gate = make(chan struct{})
 			}
 			srv.lists = append(srv.lists, a)
 		}
